@@ -12,6 +12,7 @@ func (f *File) decodeDatatype(c *cur, depth int) (*Datatype, error) {
 	defer func() { c.st = old }()
 	start := c.pos
 	cv := c.u8("version")
+	c.f.field(c.off(), 3, "count", c.st) // class bit field (for compounds and enums: the member count)
 	bf := c.bytes(3)
 	size := c.u32("size")
 	if c.err != nil {
